@@ -173,3 +173,44 @@ Definition wf_msg (m : rpcmsg) : bool :=
   && forallb wf_entry (r_head m) && nodup_keys (r_head m)
   && (16 + len (encode_headmap (r_head m)) <? 65536)
   && (16 + len (encode_headmap (r_head m)) + len (r_body m) <? 4294967296).
+
+(* ---- a complete, well-delimited frame at the head of the buffer ---- *)
+Definition complete_frame (data : bytes) : bool :=
+  (16 <=? len data) && magic_prefix_ok data
+  && (16 <=? unbe (sub data 7 9)) && (unbe (sub data 7 9) <=? unbe (sub data 3 7))
+  && (unbe (sub data 3 7) <=? len data).
+
+(* ---- several connections served by ONE handler instance ----
+   (rpcPkgHandler is installed on every session).  A connection = its receive
+   buffer and whether it is still open; `feed` is one receive on it. *)
+Definition conn := (bytes * bool)%type.
+Definition conn0 : conn := ([], true).
+
+Definition feed (c : conn) (chunk : bytes) : conn * list event :=
+  let '(buf, open) := c in
+  if negb open then (c, []) else
+  match chunk with
+  | [] => (c, [])
+  | _ => let b := buf ++ chunk in
+         let '(ev, b', o) := pump (S (length b)) b in ((b', o), ev)
+  end.
+
+Fixpoint feed_all (c : conn) (chunks : list bytes) : list event :=
+  match chunks with
+  | [] => []
+  | ch :: cs => let '(c', ev) := feed c ch in ev ++ feed_all c' cs
+  end.
+
+(* a schedule: which connection (false = A, true = B) receives which chunk, in
+   arrival order; the two event lists are what each connection delivers *)
+Fixpoint drive2 (a b : conn) (sched : list (bool * bytes)) : list event * list event :=
+  match sched with
+  | [] => ([], [])
+  | (false, ch) :: s => let '(a', ev) := feed a ch in
+                        let '(ea, eb) := drive2 a' b s in (ev ++ ea, eb)
+  | (true, ch) :: s => let '(b', ev) := feed b ch in
+                       let '(ea, eb) := drive2 a b' s in (ea, ev ++ eb)
+  end.
+
+Definition chunks_of (side : bool) (sched : list (bool * bytes)) : list bytes :=
+  map snd (filter (fun x => Bool.eqb (fst x) side) sched).
